@@ -1772,7 +1772,12 @@ func (t *Torrent) Request(index uint32, prio int8, request bool, want bool) (boo
 	select {
 	case t.Event <- peer.TorRequest{index, prio, request, ch}:
 		if ch != nil {
-			return true, <-ch, nil
+			select {
+			case c := <-ch:
+				return true, c, nil
+			case <-t.Done:
+				return false, nil, ErrTorrentDead
+			}
 		}
 		return true, nil, nil
 	case <-t.Done:
